@@ -317,6 +317,52 @@ def mit_gss_interop(wd, seed):
              "rejected_lines": len(bad)}, [lines[i - 1] for i in bad])
 
 
+def mit_hostrealm_cross(wd, limit_subsets=400):
+    """RealmResolve (C16) against MIT's krb5_get_host_realm: the configurations and host names of wd/subsets.ndjson x wd/hosts.ndjson are
+    given to MIT; TLC (TraceC16!MITResolveOK) compares."""
+    exe = build_mitref()
+    if exe is None:
+        return {"available": False}
+    hosts = vlib.read_ndjson(os.path.join(wd, "hosts.ndjson"))
+    subsets = vlib.read_ndjson(os.path.join(wd, "subsets.ndjson"))
+    step = max(1, len(subsets) // limit_subsets)
+    d = os.path.join(wd, "mitconf")
+    os.makedirs(d, exist_ok=True)
+    lines, reqs = [], []
+    for si, sset in enumerate(subsets[::step]):
+        text = "[libdefaults]\n default_realm = DEFAULT.TEST\n dns_lookup_realm = false\n[domain_realm]\n"
+        for i, k in enumerate(sset["d"]):
+            name = ".".join(k[1])
+            text += "  %s%s = R%d\n" % ("." if k[0] == "dom" else "", name, i + 1)
+        cf = os.path.join(d, "c%d.conf" % si)
+        open(cf, "w").write(text)
+        for h in hosts:
+            lines.append({"ev": "mitresolve", "h": h["h"], "d": sset["d"]})
+            reqs.append("hostrealm %s %s" % (cf, ".".join(h["h"])))
+    outs = mit(exe, reqs)
+    for x, o in zip(lines, outs):
+        x["rc"], x["mit"] = o["rc"], o["realm"]
+    shutil.rmtree(d, ignore_errors=True)
+    trace = os.path.join(wd, "trace.ndjson")
+    keep = None
+    if os.path.exists(trace):
+        keep = trace + ".keep5"
+        os.rename(trace, keep)
+    try:
+        vlib.write_ndjson(trace, lines)
+        res = vlib.tlc_or_die(wd, "TraceC16", timeout=1800)
+        bad = sorted(int(v) for v in res.tags("BADLINE"))
+        if res.distinct != len(lines) + 1:
+            raise vlib.Inconclusive("TraceC16 (MIT lines): TLC visited %d states, expected %d" % (res.distinct, len(lines) + 1))
+    finally:
+        if keep:
+            os.replace(keep, trace)
+        else:
+            os.remove(trace)
+    return {"available": True, "resolutions": len(lines), "resolved_by_mit_to_a_realm": sum(1 for x in lines if x["mit"]), "disagreements": len(bad),
+            "first": [lines[i - 1] for i in bad[:4]]}
+
+
 PAC_NOT_COMPARABLE = {
     "kdcdecl": "MIT does not look at the KDC signature's declared type when no KDC key is given; gokrb5 and the specification need it to know how many octets to zero",
     "rodc": "MIT 1.20 zeroes the whole remainder of a signature buffer, RODC identifier included; [MS-PAC] 2.8 zeroes the Signature field only (the specification follows MS-PAC)",
